@@ -386,10 +386,61 @@ func ruleRunReset(p *Program, r *Reporter) {
 			scans = append(scans, scan{a.vmEntry, c.(ssa.Instruction)})
 		}
 	}
+	// the resets grouped in a method of the machine that the entry calls before
+	// the dispatch (`vm.resetForRun()`): what it does on all its paths counts
+	// at the call
+	var resetsIn func(h *ssa.Function, depth int) (cache, stack bool)
+	resetsIn = func(h *ssa.Function, depth int) (cache, stack bool) {
+		if h == nil || depth > 2 || len(h.Blocks) == 0 || !recvNamed(h, "vm", "VM") {
+			return false, false
+		}
+		onAll := func(ins ssa.Instruction) bool {
+			for _, hb := range h.Blocks {
+				if _, ok := terminator(hb).(*ssa.Return); ok {
+					if !(ins.Block() == hb || ins.Block().Dominates(hb)) {
+						return false
+					}
+				}
+			}
+			return true
+		}
+		for _, hb := range h.Blocks {
+			for _, hi := range hb.Instrs {
+				switch x := hi.(type) {
+				case *ssa.Store:
+					if fieldKey(x.Addr) == "vm.VM.fields" {
+						if _, ok := x.Val.(*ssa.MakeMap); ok && onAll(x) {
+							cache = true
+						}
+					}
+					if fieldKey(x.Addr) == "vm.VM.stack" && onAll(x) {
+						if c, ok := x.Val.(*ssa.Call); ok && c.Call.StaticCallee() != nil && c.Call.StaticCallee().Name() == "New" {
+							stack = true
+						}
+					}
+				case *ssa.Call:
+					if clear != nil && x.Call.StaticCallee() == clear && onAll(x) {
+						if u, ok := x.Call.Args[0].(*ssa.UnOp); ok && fieldKey(u.X) == "vm.VM.stack" {
+							stack = true
+						}
+					}
+					if cal := x.Call.StaticCallee(); cal != nil && cal != h && onAll(x) {
+						c2, s2 := resetsIn(cal, depth+1)
+						cache, stack = cache || c2, stack || s2
+					}
+				}
+			}
+		}
+		return
+	}
 	for _, sc := range scans {
 		dp := sc.at
 		for _, b := range sc.fn.Blocks {
 			for _, ins := range b.Instrs {
+				if c, ok := ins.(*ssa.Call); ok && c.Call.StaticCallee() != nil && c.Call.StaticCallee() != clear && dominatesInstr(c, dp) && len(c.Call.Args) > 0 && c.Call.Args[0] == ssa.Value(sc.fn.Params[0]) {
+					c2, s2 := resetsIn(c.Call.StaticCallee(), 0)
+					cacheReset, stackReset = cacheReset || c2, stackReset || s2
+				}
 				switch x := ins.(type) {
 				case *ssa.Store:
 					if fieldKey(x.Addr) == "vm.VM.fields" {
@@ -1122,31 +1173,42 @@ func ruleScopePair(p *Program, r *Reporter) {
 // where the callee's scopes begin, say).
 func scopeOpeners(p *Program, er *envRoles) []*ssa.Function {
 	out := []*ssa.Function{er.addScope}
-	for _, fn := range p.LibFns {
-		if fn == er.addScope || fn.Parent() != nil || !recvNamed(fn, "environment", "Environment") {
-			continue
-		}
-		calls := callsTo(fn, er.addScope)
-		if len(calls) == 0 {
-			continue
-		}
-		all := true
-		for _, b := range fn.Blocks {
-			if _, ok := terminator(b).(*ssa.Return); !ok {
+	is := map[*ssa.Function]bool{er.addScope: true}
+	// methods of the environment — and of the machine: the part of the call
+	// handler that sets the callee up — that open a scope on all their paths
+	for changed := true; changed; {
+		changed = false
+		for _, fn := range p.LibFns {
+			if is[fn] || fn.Parent() != nil || !(recvNamed(fn, "environment", "Environment") || recvNamed(fn, "vm", "VM")) {
 				continue
 			}
-			dom := false
-			for _, c := range calls {
-				if c.Block() == b || c.Block().Dominates(b) {
-					dom = true
+			var calls []ssa.CallInstruction
+			for o := range is {
+				calls = append(calls, callsTo(fn, o)...)
+			}
+			if len(calls) == 0 {
+				continue
+			}
+			all := true
+			for _, b := range fn.Blocks {
+				if _, ok := terminator(b).(*ssa.Return); !ok {
+					continue
+				}
+				dom := false
+				for _, c := range calls {
+					if c.Block() == b || c.Block().Dominates(b) {
+						dom = true
+					}
+				}
+				if !dom {
+					all = false
 				}
 			}
-			if !dom {
-				all = false
+			if all {
+				is[fn] = true
+				out = append(out, fn)
+				changed = true
 			}
-		}
-		if all {
-			out = append(out, fn)
 		}
 	}
 	return out
